@@ -197,3 +197,32 @@ func (s *Scanner) Scan(text string) (toks []Tok, lexErr *ScanError, singleUpper 
 	}
 	return toks, nil, singleUpper
 }
+
+// Boundaries returns the offsets at which a lexeme (token, whitespace run, newline run or comment) ends and
+// the next one begins, up to the first lexical error.
+func (s *Scanner) Boundaries(text string) []int {
+	rs := []rune(text)
+	var out []int
+	i := 0
+	for i < len(rs) {
+		st := s.Start()
+		j := i
+		last := 0
+		for j < len(rs) {
+			st = s.Next(st, rs[j])
+			if s.Dead(st) {
+				break
+			}
+			j++
+			if s.Accepting(st) != nil {
+				last = j - i
+			}
+		}
+		if last == 0 || last != j-i {
+			return out
+		}
+		i += last
+		out = append(out, i)
+	}
+	return out
+}
